@@ -43,17 +43,21 @@ Section Comparators.
     | _, _ => lex_cmp a b
     end.
 
-  (* CaseFoldAscendingComparator: strings.ToLower only when the value has string type (ASCII model of ToLower) *)
-  Definition fold_text (s : bytes) : bytes := match infer s with VString => map lower s | _ => s end.
+  (* CaseFoldAscendingComparator: strings.ToLower of every value's text, number-like ones included (since the repair of
+     sort-c-does-not-fold-number-like-text; ASCII model of ToLower) *)
+  Definition fold_text (s : bytes) : bytes := map lower s.
   Definition case_cmp (a b : bytes) : Z := lex_cmp (fold_text a) (fold_text b).
 
-  (* NaturalAscendingComparator (which, despite its name, yields 1 when natsort says a < b) *)
+  (* NaturalAscendingComparator (which, despite its name, yields 1 when natsort says a <= b only).  natsort.Compare is a
+     non-strict "<=": since the repair of natural-ties-hide-later-keys both directions are asked and distinct texts that
+     natsort deems equal (01, 1) tie *)
   Definition nac (a b : bytes) : Z :=
     if beqb a b then 0
     else match a, b with
          | [], _ => 1
          | _, [] => -1
-         | _, _ => if nat_less a b then 1 else -1
+         | _, _ => let ab := nat_less a b in let ba := nat_less b a in
+                   if ab && ba then 0 else if ab then 1 else -1
          end.
 
   (* Dc..Dtr: the callbacks of the DSL function sort(array, flags), pkg/dsl/cst/hofs.go sortACaseFold and sortANatural, where they differ *)
